@@ -21,7 +21,7 @@ def run(chk, drv):
     n_sets = 50 if quick else 800
     cfgs = [dict(seed_key='C06-%s-%d' % (chk.seed, i), dialects=['wowsOld', 'wowsNew', 'wot'], n_hist=3,
                  n_events=50 if i % 2 == 0 else 160, every=(i % 2 == 0), weights=WEIGHTS, strict=False, want_sample=(i == 0),
-                 fields=['entities'], entity_fields=['client']) for i in range(n_sets)]
+                 fields=['entities'], entity_fields=['client'], check_encoder=True) for i in range(n_sets)]
     histcheck.run_batches(chk, cfgs, 'gen', 'a nested update does not behave like the list/dict operation',
                           nontrivial=lambda c: c['entities'] >= 2 and c['kinds'].get('nested', 0) >= 1)
     recworld.run(chk, drv, 3 if quick else 1000, compare=('client',))
